@@ -4168,23 +4168,67 @@ func ownershipShapes(repo string) {
 	} else {
 		fmt.Fprintf(&out, "Definition gen_record_header_share : N := %d.\n", k)
 	}
-	// ---- completePack: the merged message's header
+	// ---- completePack: the merged message's header.  The construction may live in completePack itself or in a helper
+	// it was extracted into (any function of the package that assigns `<x>.JTMessage = &<jm>` with `<jm> := *<m>.JTMessage`):
+	// the function that holds it is found by shape, not by name.
 	if fd := method("packageParse", "completePack"); fd == nil {
 		fail("ownership/completePack", "method packageParse.completePack not found")
 	} else {
-		sh := scan(fd)
-		jm, has := sh.addrAsg["completeMsg.JTMessage"]
+		type cand struct {
+			sh       shape
+			key, jm  string
+			fromExpr string
+		}
+		var cands []cand
+		var fnames []string
+		for n := range files {
+			fnames = append(fnames, n)
+		}
+		sort.Strings(fnames)
+		for _, n := range fnames {
+			if strings.HasPrefix(n, "verif_") {
+				continue
+			}
+			for _, d := range files[n].Decls {
+				g, ok := d.(*ast.FuncDecl)
+				if !ok || g.Body == nil {
+					continue
+				}
+				sh := scan(g)
+				for k, jm := range sh.addrAsg {
+					if strings.HasSuffix(k, ".JTMessage") && strings.HasSuffix(sh.derefDef[jm], ".JTMessage") {
+						cands = append(cands, cand{sh, k, jm, sh.derefDef[jm]})
+					}
+				}
+			}
+		}
 		switch {
-		case !has:
-			fmt.Fprintf(&out, "Definition gen_merged_header_share : N := 0.\n")
-		case sh.derefDef[jm] != "msg.JTMessage":
-			fail("ownership/completePack", "completeMsg.JTMessage = &"+jm+" which is not a copy of *msg.JTMessage")
+		case len(cands) == 0:
+			// no own JTMessage anywhere: the merged message is built around the packet's JTMessage (the shape before
+			// fix a3fb0a0) - recognised as SHARED only when completePack itself still builds the message that way
+			builds := false
+			ast.Inspect(fd.Body, func(x ast.Node) bool {
+				if c, ok := x.(*ast.CallExpr); ok {
+					if id, ok := c.Fun.(*ast.Ident); ok && id.Name == "newTerminalMessage" && len(c.Args) > 0 && strings.HasSuffix(str(c.Args[0]), ".JTMessage") {
+						builds = true
+					}
+				}
+				return true
+			})
+			if builds {
+				fmt.Fprintf(&out, "Definition gen_merged_header_share : N := 0.\n")
+			} else {
+				fail("ownership/completePack", "construction of the merged message not found")
+			}
+		case len(cands) > 1:
+			fail("ownership/completePack", "more than one function gives a message its own JTMessage copy")
 		default:
-			ch, ok := sh.addrAsg[jm+".Header"]
+			c := cands[0]
+			ch, ok := c.sh.addrAsg[c.jm+".Header"]
 			if !ok {
 				fmt.Fprintf(&out, "Definition gen_merged_header_share : N := 0.\n") // own JTMessage struct, same *Header
-			} else if k, ok := classify(sh, &ast.UnaryExpr{Op: token.AND, X: ast.NewIdent(ch)}, map[string]bool{"msg.JTMessage.Header": true, jm + ".Header": true}); !ok {
-				fail("ownership/completePack", jm+".Header = &"+ch+" is not a recognised copy of the packet's header")
+			} else if k, ok := classify(c.sh, &ast.UnaryExpr{Op: token.AND, X: ast.NewIdent(ch)}, map[string]bool{c.fromExpr + ".Header": true, c.jm + ".Header": true}); !ok {
+				fail("ownership/completePack", c.jm+".Header = &"+ch+" is not a recognised copy of the packet's header")
 			} else {
 				fmt.Fprintf(&out, "Definition gen_merged_header_share : N := %d.\n", k)
 			}
